@@ -36,6 +36,9 @@ def check(repo: Repo, R) -> None:
     slice_resolution(repo, R)
     shared.owner_only_writes(repo, R, "C01.9-conns-owner-api",
                              why="a pass that rewrites conns without updating the back-reference set leaves stale or missing _connected_ports entries that later passes follow")
+    from . import c04
+    c04.pairing(repo, shared.Retag(R, lambda r: "C01.9-conns-owner-api",
+                                   "a replaced port reference / bundle keeps its back-reference: ResolvePortRefs or BundleFlattener later follow it and short the re-connected port onto the old net"))
     total_loops(repo, R, noret)
     copy_port_internal(repo, R)
     copy_aliasing(repo, R, "C01.12-copy-shares-backrefs")
